@@ -8,6 +8,7 @@ import PhyVerif.Driver.C20
 import PhyVerif.Driver.C17
 import PhyVerif.Driver.C02
 import PhyVerif.Driver.C03
+import PhyVerif.Driver.C06
 open Lean PhyVerif.Driver
 
 def dispatch (j : Json) : R Json := do
@@ -23,6 +24,7 @@ def dispatch (j : Json) : R Json := do
   | "C17" => runC17 op j
   | "C02" => runC02 op j
   | "C03" => runC03 op j
+  | "C06" => runC06 op j
   | _ => .error s!"unknown property {p}"
 
 def handle (line : String) : String :=
